@@ -555,6 +555,8 @@ class Exec:
                 return [Sym(t, v.ty.get(v.e, i)) for i, t in enumerate(v.ty.elems)]
             if isinstance(v.ty, OptTy):
                 return self.destructure(v_unwrap(v), n)
+            if isinstance(v.ty, ClassTy) and self.repo.classes[v.ty.cname].is_namedtuple and len(v.ty.fields()) == n:
+                return [v_getfield(v, f) for f, _ in v.ty.fields()]
         raise PyvcUnsupported(f"destructure {v!r} into {n}")
 
     # ---- loops
@@ -1147,6 +1149,10 @@ class Exec:
                 if st_ok is None:
                     return
                 st2 = st_ok
+            if isinstance(e.op, ast.Add) and isinstance(l, Sym) and isinstance(l.ty, SeqTy) and isinstance(r, (tuple, list)) and r:
+                r = Sym(l.ty, coerce(list(r), l.ty))
+            if isinstance(e.op, ast.Add) and isinstance(r, Sym) and isinstance(r.ty, SeqTy) and isinstance(l, (tuple, list)) and l:
+                l = Sym(r.ty, coerce(list(l), r.ty))
             if (isinstance(e.op, ast.Add) and isinstance(l, Sym) and isinstance(r, Sym) and isinstance(l.ty, SeqTy)
                     and isinstance(r.ty, SeqTy) and l.ty.sort == r.ty.sort):
                 # concatenation of two symbolic sequences: a fresh sequence with explicit index facts
